@@ -782,3 +782,14 @@ M("m163", "C12", "R12.10", CKPT, "        manager = cls._create_checkpoint_manag
   "restore() prunes the directory it reads from: retained steps removed by the package")
 B("b54", ["C12", "C10", "C09"], CKPT, "            create=True,\n", "            create=True,\n            enable_background_delete=False,\n",
   "an Orbax option that changes neither which steps are written nor which are kept")
+
+# =============================================================================== remembered convergence (R8.9 / R5.6 / R9.1)
+M2("m164", "C08", ["R8.9"], [
+    (VI, "        for _ in range(max_iterations):\n            self.iteration += 1\n            new_values, conv = self._iteration_step()\n",
+     "        if getattr(self, \"_done\", False):\n            return self.solver_state\n        for _ in range(max_iterations):\n            self.iteration += 1\n            new_values, conv = self._iteration_step()\n", None),
+    (VI, "                logger.info(\n                    f\"Convergence threshold reached at iteration {self.iteration}\"\n                )\n                break\n",
+     "                logger.info(\n                    f\"Convergence threshold reached at iteration {self.iteration}\"\n                )\n                self._done = True\n                break\n", None),
+], "VI: solve() returns at once when a remembered `_done` flag is set; load_checkpoint of an earlier step leaves it set")
+B("b55", ["C08", "C09", "C05", "C12"], VI, "        for _ in range(max_iterations):\n            self.iteration += 1\n            new_values, conv = self._iteration_step()\n",
+  "        if max_iterations <= 0:\n            return self.solver_state\n        for _ in range(max_iterations):\n            self.iteration += 1\n            new_values, conv = self._iteration_step()\n",
+  "early return for a non-positive limit: outside the property (positive limits)")
